@@ -42,6 +42,7 @@ Variable populate : A -> list trial -> bool -> tid -> A * status * V.
 Variable hook_end : A -> tid -> V -> A.                 (* update_space, _record_values, subclass end_trial tail *)
 Variable hook_end_abort : A -> tid -> V -> A.           (* same, when end_trial raises: the subclass tail is skipped *)
 Variable hook_reload : A -> A.                          (* subclass set_state over its own get_state *)
+Variable reissue : V -> V.                              (* what create_trial does to a trial taken from the retry queue (fresh metrics) *)
 
 Record ostate := {
   trials : list trial;
@@ -86,6 +87,8 @@ Fixpoint upd {X} (n : nat) (f : X -> X) (l : list X) : list X :=
 Definition to_disk (t : trial) : dtrial := {| d_status := t_status t; d_score := t_score t; d_data := t_data t |}.
 Definition set_status (s : status) (t : trial) : trial :=
   {| t_status := s; t_score := t_score t; t_runs := t_runs t; t_data := t_data t |}.
+Definition reissue_trial (t : trial) : trial :=
+  {| t_status := RUNNING; t_score := t_score t; t_runs := t_runs t; t_data := reissue (t_data t) |}.
 Definition map_data (f : V -> V) (t : trial) : trial :=
   {| t_status := t_status t; t_score := t_score t; t_runs := t_runs t; t_data := f (t_data t) |}.
 
@@ -109,7 +112,7 @@ Definition do_create (c : cfg) (s : ostate) (tu : tuner) : ostate * resp :=
     let tids := add_set tu (tuner_ids s) in
     match rev (retryq s) with
     | id :: rq' =>
-        let ts' := upd id (set_status RUNNING) (trials s) in
+        let ts' := upd id reissue_trial (trials s) in
         (* only oracle.json is rewritten: the trial file keeps the status of its last save *)
         ({| trials := ts'; ongoing := ongoing s ++ [(tu, id)];
             start_order := start_order s; end_order := end_order s;
